@@ -393,3 +393,22 @@ def const_value(node):
         v = const_value(node.operand)
         return -v if v is not None else None
     return None
+
+
+def canon(text):
+    """Normal form of a source fragment (expression or statement) as this interpreter unparses it."""
+    try:
+        return unparse(ast.parse(text.strip()))
+    except SyntaxError:
+        return re.sub(r"\s+", " ", text).strip()
+
+
+def is_text(node, *expected):
+    """Does the node unparse to one of the expected fragments (compared after re-parsing both)?"""
+    got = unparse(node)
+    return any(got == canon(e) for e in expected)
+
+
+def contains_text(node, expected):
+    """Is the (canonical) fragment a substring of the node's canonical text?"""
+    return canon(expected) in unparse(node)
